@@ -44,6 +44,23 @@ type Node struct {
 
 type Case struct {
 	Program []Node `json:"program"`
+	// BadJoin (1..3): after the program, one more declaration is attempted whose
+	// pieces are each harmless but whose concatenation is not a route the router
+	// may accept (C08): "/bj/" + "/leaf" and "/bj" + "/" + "/leaf" have an empty
+	// inner segment, "/?bj" + "/leaf" an optional segment that is not the last.
+	// The flat registration of the concatenated path is refused, so this is too.
+	BadJoin int `json:"ill_formed_concatenation,omitempty"`
+}
+
+func badJoin(k int) (nodes []Node, flat string) {
+	leaf := []Node{{K: "method", Path: "/leaf", Methods: []string{"GET"}, H: 1}}
+	switch k {
+	case 1:
+		return []Node{{K: "group", Path: "/bj/", Children: leaf}}, "/bj//leaf"
+	case 2:
+		return []Node{{K: "group", Path: "/bj", Children: []Node{{K: "group", Path: "/", Children: leaf}}}}, "/bj//leaf"
+	}
+	return []Node{{K: "group", Path: "/?bj", Children: leaf}}, "/?bj/leaf"
 }
 
 // Flat is one entry of the flat expansion.
@@ -316,6 +333,38 @@ func checkCase(c Case) (out evid.Outcome) {
 	// Q: the flat list
 	q := newApp()
 	qb := &builder{f: q.f, trace: &q.trace, seen: &q.seen}
+	if c.BadJoin > 0 {
+		nodes, flatPath := badJoin(c.BadJoin)
+		refused := func(f func()) (r interface{}) {
+			defer func() { r = recover() }()
+			f()
+			return nil
+		}
+		if refused(func() { q.f.Route("GET", flatPath, []flamego.Handler{func() {}}) }) == nil {
+			panic("harness: the flat registration of " + flatPath + " was accepted")
+		}
+		pb := &builder{f: p.f, trace: &p.trace, seen: &p.seen, next: 100000}
+		if refused(func() { pb.walk(nodes) }) == nil {
+			return evid.Fail("ill-formed-concatenation-accepted", "the nested declaration %s concatenates to %q, which the flat registration refuses, but it was accepted; program %s", js(nodes), flatPath, js(c))
+		}
+		// a group left through a panic is left all the same: what is declared
+		// afterwards is declared at the top level
+		pAfter, qAfter := false, false
+		if r := refused(func() { p.f.Get("/after-bj", func() { pAfter = true }) }); r != nil {
+			return evid.Fail("scope-not-restored", "after the refused nested declaration %s, declaring \"/after-bj\" at the top level panicked: %v (the group was not left); program %s", js(nodes), r, js(c))
+		}
+		q.f.Route("GET", "/after-bj", []flamego.Handler{func() { qAfter = true }})
+		p.f.ServeHTTP(rt.NewSpy(), rt.NewRequest("GET", "/after-bj", nil))
+		q.f.ServeHTTP(rt.NewSpy(), rt.NewRequest("GET", "/after-bj", nil))
+		if !qAfter {
+			panic("harness: the flat instance does not serve /after-bj")
+		}
+		if !pAfter {
+			return evid.Fail("scope-not-restored", "after the refused nested declaration %s a route declared at the top level (\"/after-bj\") is not reachable under its own path: the group was not left; program %s", js(nodes), js(c))
+		}
+		out.NonTrivial = true
+		out.Classes = append(out.Classes, "ill-formed-concatenation-refused")
+	}
 	for _, fr := range flat {
 		var hs []flamego.Handler
 		for _, id := range fr.IDs {
@@ -684,6 +733,9 @@ func TestProp(t *testing.T) {
 	evid.Rapid(t, "program", 2000, 30000, func(t *rapid.T) {
 		g := &gstate{}
 		c := Case{Program: g.nodes(t, 0, "", false)}
+		if rapid.IntRange(0, 5).Draw(t, "badjoin") == 0 {
+			c.BadJoin = rapid.IntRange(1, 3).Draw(t, "badjoink")
+		}
 		evid.Run(t, "program", c, func() evid.Outcome { return checkCase(c) })
 	})
 }
